@@ -84,9 +84,9 @@ bool check_range(const Params& p, const std::vector<double>& x, const std::vecto
 }
 
 // ------------------------------------------------------------------------------------------- arbitrary signals
-enum SigCls { G_SILENCE = 0, G_STEPS, G_NOISE, G_BURSTS, G_TONE, G_IMPULSES, G_DYN, G_NEAR_T, G_MIXED, G_NCLS };
+enum SigCls { G_SILENCE = 0, G_STEPS, G_NOISE, G_BURSTS, G_TONE, G_IMPULSES, G_DYN, G_NEAR_T, G_BURST_SILENCE, G_MIXED, G_NCLS };
 const char* gname(int c) {
-    static const char* n[] = {"silence", "steps", "noise", "bursts", "tone", "impulses", "dynrange", "near-threshold", "mixed"};
+    static const char* n[] = {"silence", "steps", "noise", "bursts", "tone", "impulses", "dynrange", "near-threshold", "burst-then-silence", "mixed"};
     return c >= 0 && c < G_NCLS ? n[c] : "?";
 }
 double draw_level(Rng& r, double T, double W) {
@@ -137,6 +137,18 @@ void fill(Rng& r, std::vector<double>& x, int a, int b, int cls, double T, doubl
     }
     case G_DYN: for (int i = a; i < b; ++i) x[size_t(i)] = r.gauss() * r.logmag(-6, 1.5); break;
     case G_NEAR_T: for (int i = a; i < b; ++i) x[size_t(i)] = (r.coin() ? 1 : -1) * amp_of(T + r.uni(-W / 2 - 1, W / 2 + 1)); break;
+    case G_BURST_SILENCE: {
+        // strong bursts separated by EXACT silence (what a gated / packetised input looks like)
+        int i = a;
+        while (i < b) {
+            const int len = seg_len(r, 3000), kind = r.range(0, 2);
+            const double A = amp_of(r.coin() ? r.uni(-20, 40) : draw_level(r, T, W)), f = r.uni(0.001, 0.5), ph = r.uni(0, 6.283185307179586);
+            for (int j = 0; j < len && i < b; ++j, ++i) x[size_t(i)] = kind == 0 ? A * r.gauss() : kind == 1 ? A * std::sin(6.283185307179586 * f * j + ph) : (r.coin() ? A : -A);
+            const int gap = seg_len(r, 3000);
+            for (int j = 0; j < gap && i < b; ++j, ++i) x[size_t(i)] = 0.0;
+        }
+        break;
+    }
     default: for (int i = a; i < b; ++i) x[size_t(i)] = 0;
     }
 }
@@ -339,7 +351,7 @@ static void ceil_gen(Ctx& ctx) {
         Json j = Json::object(); put_params(j, p);
         const int nk = pick(0, 5);
         // every class except pure silence at full weight; bursts/impulses/steps/mixed are the abrupt ones
-        const int cls = one_of(std::vector<int>{G_SILENCE, G_STEPS, G_STEPS, G_NOISE, G_BURSTS, G_BURSTS, G_TONE, G_IMPULSES, G_IMPULSES, G_DYN, G_NEAR_T, G_MIXED, G_MIXED});
+        const int cls = one_of(std::vector<int>{G_SILENCE, G_STEPS, G_STEPS, G_NOISE, G_BURSTS, G_BURSTS, G_TONE, G_IMPULSES, G_IMPULSES, G_DYN, G_NEAR_T, G_BURST_SILENCE, G_BURST_SILENCE, G_MIXED, G_MIXED});
         return j.set("dflt", pick(0, 3) == 0 ? 1 : 0).set("n", nk == 0 ? pick_log(1, 2000) : nk == 1 ? 10000 : 100000).set("cls", cls).set("seed", (long long)seed64());
     });
 }
@@ -698,16 +710,17 @@ static void agcm_check(const Json& c, Out& o) {
     const AgcCase a = agc_of(c);
     const int n = c.geti("n"), cls = c.geti("cls");
     const double scale = amp_of(c.getd("level"));
-    std::vector<double> s = gen_signal(c.getu("seed"), c.geti("cx") ? 2 * n : n, cls, -20, 10);
-    // Excluded by construction (floor = 1): a burst followed by (near) silence inside the averaging memory makes the library
-    // return NaN (finding agc:nan-after-burst-then-silence).  Every magnitude below 1e-5 of the peak is lifted to it, so the
-    // window power stays >= 1e-10 of the peak, 450x above the worst rounding residue L*eps*peak; all-zero input is kept.
-    long lifted = 0;
-    if (c.geti("floor", 1)) {
-        double peak = 0;
-        for (double v : s) peak = std::max(peak, std::fabs(v));
-        const double d = 1e-5 * peak;
-        if (peak > 0) for (double& v : s) if (std::fabs(v) < d) { v = std::signbit(v) ? -d : d; ++lifted; }
+    // cls = -1: the burst-then-silence scenario  x[i] = A sin(f i + ph) for i < m, exactly 0 afterwards  (A from "level")
+    std::vector<double> s;
+    if (cls >= 0) s = gen_signal(c.getu("seed"), c.geti("cx") ? 2 * n : n, cls, -20, 10);
+    else {
+        const int m = c.geti("m"), step = c.geti("cx") ? 2 : 1;
+        const double f = c.getd("f"), ph = c.getd("ph");
+        s.assign(size_t(step * n), 0.0);
+        for (int i = 0; i < std::min(m, n); ++i) {
+            s[size_t(step * i)] = std::sin(f * i + ph);
+            if (step == 2) s[size_t(2 * i + 1)] = std::cos(1.3 * f * i + ph);
+        }
     }
     const ld gmax = undb(a.maxgain_db);
     ld top = 0;
@@ -728,22 +741,30 @@ static void agcm_check(const Json& c, Out& o) {
     }
     o.evals = n;
     const bool capped = top >= gmax * (1 - 1e-9L);
-    if (capped) o.nontrivial(key_of(cls, c.geti("cx"), int(a.maxgain_db / 10), a.L < 10 ? a.L : a.L < 100 ? 10 : 11));
+    if (capped) o.nontrivial(key_of(cls + 1, c.geti("cx"), int(a.maxgain_db / 10), a.L < 10 ? a.L : a.L < 100 ? 10 : 11));
     o.label(capped ? "cap:reached" : "cap:not reached");
-    o.label(std::string("signal:") + gname(cls));
+    o.label(cls < 0 ? "signal:burst-then-silence scenario" : std::string("signal:") + gname(cls));
     o.label(c.geti("cx") ? "input:complex" : "input:real");
-    if (lifted) o.label("excluded:agc-burst-then-silence (magnitude floor applied)");
 }
 static void agcm_gen(Ctx& ctx) {
-    ctx.rc("random", ctx.by_tier(40000, 400000), [&]() {
+    auto common = [&]() {
         const double target = std::pow(10.0, pickd(-2, 2));
         const int lk = pick(0, 2);
         const int L = lk == 0 ? 1 : lk == 1 ? pick(2, 99) : pick(100, 1000);
         auto step = [&]() { const int s = pick(0, 2); return s == 0 ? 0.01 : std::pow(10.0, pickd(-3, 0)); };
         const double tr = step(), tf = pick(0, 1) ? tr : step();
+        return Json::object().set("target", target).set("level", pickd(-40, 40)).set("mg", pick(0, 2) == 0 ? double(pick(0, 60)) : pickd(0, 80)).set("L", L).set("tr", tr).set("tf", tf);
+    };
+    ctx.rc("random", ctx.by_tier(40000, 400000), [&]() {
+        Json j = common();
         const int nk = pick(0, 3);
-        return Json::object().set("target", target).set("level", pickd(-40, 40)).set("mg", pick(0, 2) == 0 ? double(pick(0, 60)) : pickd(0, 80)).set("L", L).set("tr", tr).set("tf", tf)
-          .set("floor", 1).set("cx", pick(0, 1)).set("n", nk == 0 ? pick_log(1, 2000) : nk == 1 ? 5000 : 20000).set("cls", pick(0, G_NCLS - 1)).set("seed", (long long)seed64());
+        return j.set("cx", pick(0, 1)).set("n", nk == 0 ? pick_log(1, 2000) : nk == 1 ? 5000 : 20000).set("cls", pick(0, G_NCLS - 1)).set("seed", (long long)seed64());
+    });
+    // a burst of m samples, then exact silence for more than two averaging windows
+    ctx.rc("burst_then_silence", ctx.by_tier(40000, 400000), [&]() {
+        Json j = common();
+        const int L = j.geti("L"), m = pick(0, 2) == 0 ? pick(1, 3 * L) : pick_log(1, 3000);
+        return j.set("cx", pick(0, 1)).set("n", m + 3 * L + pick(0, 50)).set("cls", -1).set("m", m).set("f", pickd(0.001, 3.1)).set("ph", pickd(0, 6.28)).set("seed", 0);
     });
 }
 
